@@ -255,9 +255,10 @@ theorem C13_bucket_location_roundtrip (X : Ext) (tag : Bytes) (ns : Option Bytes
 /-! ## bytes: writer and tokeniser -/
 
 /-- **The tokeniser reads back what the writer wrote.** For every well-nested event sequence (`WN`: element names of
-name bytes, at most the `xmlns` attribute, texts non-empty, `<`-free and never adjacent) that begins with a tag,
-`Deserializer` over the written bytes sees exactly the written events — and everything the encoder produces for a
-schema with good element names is such a sequence (next theorem). -/
+name bytes, at most the `xmlns` attribute, texts non-empty, `<`-free and never adjacent; a text outside every
+element is white space — since 4f52948 the deserialiser refuses any other character data there) that begins with a
+tag, `Deserializer` over the written bytes sees exactly the written events — and everything the encoder produces for
+a schema with good element names is such a sequence (next theorem). -/
 theorem C13_tokenize_write (evs : List Ev) (hhead : headNotText evs = true) (h : WN [] evs) :
     deEvents (tokenize (write evs)) = evs :=
   tokenize_write evs hhead h
@@ -312,12 +313,17 @@ theorem C13_bytes_roundtrip (X : Ext) (t : Ty) (hde : (deDef t).isSome = true) :
 
 /-! ## strictness -/
 
-/-- **Schema-strict acceptance** — the five clauses of the property, each a fact about the decoder that mirrors
+/-- **Schema-strict acceptance** — the clauses of the property, each a fact about the decoder that mirrors
 the Rust code statement by statement:
 
-1. *expected root, nothing after the root*: an accepted document is `text* <root …> content text* </root> text*`
-   and the end of input — no second element, no stray end tag, no tokeniser error anywhere
-   (text outside the root is skipped, which is finding `xml-text-outside-root`);
+1. *expected root, nothing before or after the root* (FULL since the repair 4f52948 of `Deserializer::read_event`;
+   until then text outside the root was skipped, finding `xml-text-outside-root`, now fixed): for every token
+   sequence `q` of a document, an accepted document is `ws* <root …> content text* </root> ws*` and the end of
+   input, where `ws` is a text piece of white space only (space, tab, CR, LF) — no other character data and no
+   CDATA section outside the root, no second element, no stray end tag, no tokeniser error anywhere;
+   and, whatever the root kind (generated root, the two-level STS wrapper, the unwrapped `LocationConstraint`)
+   and whether or not the document is accepted: every character-data event the deserialiser is handed outside all
+   elements is a white-space text (`TopClean`) — anything else ends the run with `InvalidContent`;
 2. *known elements*: the element-name dispatch of a struct (`decodeField`) and of a union (`decodeVariant`) succeeds
    only for the element name of a member / variant;
 3. *no repeated single-valued member*: when the member an element name belongs to is not a flattened list and already
@@ -325,10 +331,11 @@ the Rust code statement by statement:
    dispatch ever removes a value — so the second element of such a member is always refused;
 4. *required members present*: a struct value is only produced with every required member set. -/
 theorem C13_decode_strict (X : Ext) :
-    (∀ (root : Bytes) (s : Sch) (evs : List Ev) (v : Val), decodeDoc X (.named root) s evs = .ok v →
+    (∀ (root : Bytes) (s : Sch) (q : List QEv) (v : Val), decodeDoc X (.named root) s (deEvents q) = .ok v →
       ∃ pre a body post mid tail,
-        evs = pre ++ .start root a :: body ∧ pre.all Ev.isText = true ∧ decode X s body = .ok (v, post) ∧
-        post = mid ++ .stop root :: tail ∧ mid.all Ev.isText = true ∧ tail.all Ev.isText = true) ∧
+        deEvents q = pre ++ .start root a :: body ∧ pre.all Ev.isWsText = true ∧ decode X s body = .ok (v, post) ∧
+        post = mid ++ .stop root :: tail ∧ mid.all Ev.isText = true ∧ tail.all Ev.isWsText = true) ∧
+    (∀ (q : List QEv), TopClean 0 (deEvents q)) ∧
     (∀ (fs : Flds) (name : Bytes) (evs : List Ev) (acc : List FVal) (r : List FVal × List Ev),
       decodeField X fs name evs acc = .ok r → name ∈ fs.tags) ∧
     (∀ (vars : Vars) (name : Bytes) (evs : List Ev) (r : Val × List Ev),
@@ -343,7 +350,8 @@ theorem C13_decode_strict (X : Ext) :
         ∃ slot', firstSlot fs acc' name' = some (shape, slot') ∧ slot'.isAbsent = false)) ∧
     (∀ (fs : Flds) (evs rest : List Ev) (v : Val), decode X (.struct fs) evs = .ok (v, rest) →
       ∃ fvs, v = .struct fvs ∧ ReqPresent fs fvs) :=
-  ⟨fun _ _ _ _ h => decodeDoc_named_ok X h,
+  ⟨fun _ _ _ _ h => decodeDoc_named_clean X h,
+   fun q => deEventsAt_topClean q 0,
    decodeField_known X,
    decodeVariant_known X,
    decodeField_repeated X,
@@ -355,9 +363,10 @@ theorem C13_decode_strict (X : Ext) :
 
 /-- **An accepted document is given its XML meaning** (FULL since the repair c575458 of `Deserializer::text`; until
 then false for CDATA sections and interrupted text, findings `xml-cdata-dropped` / `xml-comment-splits-text`, now
-fixed). For the character data of every scalar element `<name>run</name>`, whatever mix of text pieces with entity
-and character references, CDATA sections, comments and PIs the run is written as (`charsMeaning run = some m`, no
-further hypothesis):
+fixed). For the character data of every scalar element `<name>run</name>` — at any nesting depth: `d` elements are
+open around `name` (`d = 0`: the element is the root) — whatever mix of text pieces with entity and character
+references, CDATA sections, comments and PIs the run is written as (`charsMeaning run = some m`, no further
+hypothesis):
 
 1. `Deserializer::text` consumes the whole run up to the end tag and hands the scalar parser (string, str-enum,
    integer, boolean, timestamp alike) a text `raw` whose unescaped form is exactly the string `m` the run denotes —
@@ -366,12 +375,12 @@ further hypothesis):
 
 What remains different from the XML meaning is outside this statement: the reader does not normalise line ends
 (§2.11; open finding `xml-eol-not-normalised` — `charsMeaning` takes the pieces as the tokeniser delivers them). -/
-theorem C13_decode_meaning (X : Ext) (run : List QEv) (name : Bytes) (rest : List QEv) (m : Bytes)
+theorem C13_decode_meaning (X : Ext) (run : List QEv) (name : Bytes) (rest : List QEv) (d : Nat) (m : Bytes)
     (hm : charsMeaning run = some m) :
-    (∃ raw, textOf (deEvents (run ++ .stop name :: rest)) = .ok (raw, .stop name :: deEvents rest) ∧
+    (∃ raw, textOf (deEventsAt (d + 1) (run ++ .stop name :: rest)) = .ok (raw, .stop name :: deEventsAt d rest) ∧
       decodeStr raw = .ok m) ∧
-    readStringElement X name (deEvents (run ++ .stop name :: rest)) = .ok (.str m, deEvents rest) :=
-  ⟨textOf_meaning name rest run m hm, readString_meaning X name rest run m hm⟩
+    readStringElement X name (deEventsAt (d + 1) (run ++ .stop name :: rest)) = .ok (.str m, deEventsAt d rest) :=
+  ⟨textOf_meaning name rest d run m hm, readString_meaning X name rest d run m hm⟩
 
 /-! ## non-vacuity -/
 
@@ -399,6 +408,17 @@ example (X : Ext) : Fits X taggingSch taggingVal := by
     exact ⟨by decide, by decide, trivial⟩
   · rw [fits_struct, fitsFields_absent, fitsFields_one, fitsFields_nil, fits_str]
     exact ⟨rfl, by decide, trivial⟩
+
+/-- white space around the root is accepted: ` \n<Key>k</Key>\n` (the hypothesis of clause 1 is inhabited) … -/
+example : (match decodeDoc { tsParse := fun _ _ => none } (.named t_Key) .str
+      (deEvents (tokenize ([32, 10] ++ [60, 75, 101, 121, 62, 107, 60, 47, 75, 101, 121, 62] ++ [10]))) with
+    | .ok (.str b) => b == [107] | _ => false) = true := by decide
+
+/-- … other character data there is not: `x<Key>k</Key>` and `<Key>k</Key><![CDATA[]]>` end with `InvalidContent` -/
+example : deEvents (tokenize [120, 60, 75, 101, 121, 62, 107, 60, 47, 75, 101, 121, 62]) = [.bad .invalidContent] := by decide
+example : deEvents (tokenize ([60, 75, 101, 121, 62, 107, 60, 47, 75, 101, 121, 62] ++
+    [60, 33, 91, 67, 68, 65, 84, 65, 91, 93, 93, 62]))
+    = [.start t_Key [], .text [107], .stop t_Key, .bad .invalidContent] := by decide
 
 /-- `<!-- -->a&lt;<![CDATA[b&]]><?pi?>c` denotes `a<b&c` -/
 example : charsMeaning [.comment, .text [97, 38, 108, 116, 59], .cdata [98, 38], .pi, .text [99]] = some [97, 60, 98, 38, 99] := by
